@@ -1,5 +1,5 @@
 (* Extraction of Model/NamesRun.v (Model/Names.v + Spec/PyImport.v evaluator): ExtrOcamlBasic only. *)
 From Coq Require Import ExtrOcamlBasic.
-From PydoctorVerif Require Import Base.Sexp Base.ImportSyntax Spec.PyImport Model.Names Model.NamesRun.
+From PydoctorVerif Require Import Base.Sexp Base.ImportSyntax Spec.PyImport Model.Names Model.NamesIR Gen.NamesCode Model.NamesRun.
 Extraction Language OCaml.
 Extraction "model.ml" run.
